@@ -572,6 +572,12 @@ func c14ApiCase(name string, seed int64) *Case {
 		kind = "no-params"
 	}
 	c.Tags = append(c.Tags, "construct="+kind)
+	if kind == "callback" {
+		c.Tags = append(c.Tags, "check=callback-adds-to-enclosing-group")
+	}
+	if n := len(specs); n > 0 && specs[n-1].Kind == "codes" {
+		c.Tags = append(c.Tags, fmt.Sprintf("check=shared-arg-slice,len=%d,spare=%d", c14Min(len(specs[n-1].Items), 5), 1+int(uint64(seed)%3)))
+	}
 	items, ok := c14Term(name, specs)
 	if ok {
 		c.Hist = hist.History{{Kind: "rplain", Code: term.S(items...)}}
@@ -698,6 +704,8 @@ func c14EnumOracle() string {
 		}
 	}
 	bad = append(bad, c14FileGoString()...)
+	bad = append(bad, c14EnclosingEnum()...) // c14_extra.go
+	bad = append(bad, c14AliasEnum()...)     // c14_extra.go
 	sort.Strings(bad)
 	if len(bad) > 0 {
 		return "API: " + strings.Join(bad, "; ")
@@ -899,6 +907,14 @@ func c14CheckConstruct(name string, seed int64, got []hist.Obs, h hist.History) 
 				return fmt.Sprintf("%s: nested callback of %s ran %d times", name, l.What[i], *n)
 			}
 		}
+	}
+	// callbacks that also add items to the enclosing group; the caller's argument slice with
+	// spare capacity shared by two calls (c14_extra.go)
+	if e := c14EnclosingCheck(name, specs, seed); e != "" {
+		return e
+	}
+	if e := c14AliasApi(name, specs, seed); e != "" {
+		return e
 	}
 	// pointer identity, seen through rendering: mutate the returned statement
 	retG.Id("c14marker")
